@@ -11,6 +11,8 @@ import gem
 import harness
 import mutate
 import refscan
+import treegen
+import refverify
 import shim
 import updgen
 from harness import Part, ok, violation, skip
@@ -214,10 +216,128 @@ def run_case(desc):
         harness.rmtree(root)
 
 
+# --- the single-path update API ----------------------------------------------
+
+@st.composite
+def sp_case(draw):
+    state = draw(updgen.prior_state(allow_none=False, junk=False,
+                                    conflicts=False))
+    edits = draw(updgen.edits(state, max_ops=3, min_ops=1))
+    return {'state': state, 'edits': edits,
+            'hashes': draw(st.lists(st.sampled_from(updgen.HASHSETS),
+                                    min_size=1, max_size=3, unique=True)),
+            'force': draw(st.integers(0, 3)) == 0,
+            # several paths through one loader, or a loader per path
+            'one_loader': draw(st.booleans())}
+
+
+def strat_sp(tier):
+    return sp_case()
+
+
+def run_sp(desc):
+    state = desc['state']
+    root = harness.fresh_dir('c03p')
+    try:
+        updgen.build_prior(state, root)
+        mutate.apply_ops(root, desc['edits'])
+        classes = list(state['tags'])
+        ignores = state.get('ignores', [])
+        paths = []
+        for op in desc['edits']:
+            p = op.get('p')
+            if (op['op'] not in ('write', 'add', 'delete') or not p
+                    or p in paths or treegen.is_hidden(p)
+                    or any(refverify.comp_prefix(i.rstrip('/'), p)
+                           for i in ignores)):
+                continue
+            full = os.path.join(root, p)
+            if os.path.isdir(os.path.dirname(full)) and not os.path.isdir(
+                    full) and not os.path.islink(full):
+                paths.append(p)
+        if not paths:
+            return skip('no-updatable-path')
+        trigger = dedup_trigger_paths(root)
+        snap0 = fsnap.snapshot(root)
+
+        def run():
+            m = None
+            for p in paths:
+                if m is None or not desc['one_loader']:
+                    if m is not None:
+                        m.save_manifests(force=desc['force'])
+                    m = gem.loader(root, hashes=list(desc['hashes']))
+                m.update_entry_for_path(p)
+            m.save_manifests(force=desc['force'])
+        oc = gem.call(run)
+        what = (f'update_entry_for_path for {paths!r} (hashes '
+                f'{desc["hashes"]}, one loader: {desc["one_loader"]}) + '
+                f'save_manifests')
+        if oc.kind != 'return':
+            classes.append('failed:' + oc.kind)
+            return ok(classes=classes)       # diagnosed or C18's subject
+        changed = set(fsnap.changed_paths(fsnap.diff(
+            snap0, fsnap.snapshot(root))))
+        sc = refscan.load_all(root)
+        if sc.problems:
+            return violation(f'{what}: {sc.problems[:4]!r}',
+                             sig='single-path:unparsable', classes=classes)
+        for p in paths:
+            ents = sc.entries.get(p, [])
+            full = os.path.join(root, p)
+            if not os.path.lexists(full):
+                if ents:
+                    return violation(
+                        f'{what}: {p!r} is gone but still listed in '
+                        f'{[m for m, e in ents]!r}',
+                        sig='single-path:entry-for-missing-file',
+                        classes=classes)
+                classes.append('deleted-path')
+                continue
+            if not ents:
+                return violation(f'{what}: no entry for {p!r} afterwards',
+                                 sig='single-path:uncovered-file',
+                                 classes=classes)
+            for mp, e in ents:
+                kind, why = refverify.check_file(full, e.size, e.checksums)
+                if kind != 'ok':
+                    sig = 'single-path:stale-entry'
+                    if p in trigger:
+                        sig = KNOWN_DEDUP
+                    return violation(
+                        f'{what}: entry for {p!r} in {mp!r} is stale '
+                        f'({kind}: {why}); all entries: '
+                        f'{[(m, x.to_line()) for m, x in ents]!r}',
+                        sig=sig, classes=classes)
+            if len(ents) > 1:
+                classes.append('still-listed-twice')
+        # the Manifests that were rewritten are referenced correctly
+        for mpath, refs in sc.parents.items():
+            if mpath not in changed:
+                continue
+            for parent, e in refs:
+                kind, why = refverify.check_file(
+                    os.path.join(root, mpath), e.size, e.checksums)
+                if kind != 'ok':
+                    return violation(
+                        f'{what}: rewritten {mpath!r} is referenced from '
+                        f'{parent!r} with stale values ({kind}: {why})',
+                        sig='single-path:stale-manifest-ref',
+                        classes=classes)
+        multi = any(len(sc.entries.get(p, [])) > 1 for p in paths)
+        return ok(nontrivial=True, classes=classes + (
+            ['one-loader'] if desc['one_loader'] else ['loader-per-path']))
+    finally:
+        harness.rmtree(root)
+
+
 PARTS = [
     Part('update', run_case, strategy=strat,
          examples={'quick': 20000, 'thorough': 300000},
          budget={'quick': 70, 'thorough': 900}),
+    Part('single-path', run_sp, strategy=strat_sp,
+         examples={'quick': 6000, 'thorough': 100000},
+         budget={'quick': 30, 'thorough': 400}),
 ]
 
 LEVEL_TEXT = ('Generated prior states, options and edit/update rounds; the '
